@@ -101,6 +101,12 @@ def run_c13(ck, fb, fbd):
         only_persistent = all(any(isinstance(y, dict) and y.get("k") == "mem" and y.get("f") == "persistent_props_" for y in walk(g.resolve(x.get("r")))) for x in gets)
         trk = [x for b, i, x in g.nodes(("call",)) if x.get("pn", "").endswith("::storage_tracker") and x.get("ta")]
         ok_trk = bool(trk) and all(x["ta"][0].endswith("Entity::" + tag) for x in trk) and any(x.get("pn", "").endswith("::set_tracker") for b, i, x in g.nodes(("call",)))
+        # every persistent property is cloned, whatever the entity counts are: the inserts are conditional on nothing
+        # but the loop over the source's persistent set
+        cg = Canon(g)
+        for b, i, x in inserts:
+            extra = sorted({(cg.s(c_), p_) for c_, p_, e_ in g.facts(b) if isinstance(p_, bool) and (g.term(e_[0]) or {}).get("c") not in ("ForStmt", "WhileStmt", "CXXForRangeStmt", "DoStmt")})
+            (ck.ok if not extra else lambda r_, w, t: ck.violate(r_, w, t, "C13.clone:conditional:%s" % tag))("C13.clone", g.loc(x), "copy path <%s>: the clone-and-insert step depends on no condition besides the loop over the persistent set (%s)" % (tag, extra[:2] if extra else "unconditional"))
         (ck.ok if (ok_tag and only_persistent and ok_trk) else lambda r_, w, t: ck.violate(r_, w, t, "C13.clone:tag:%s" % tag))("C13.clone", where, "copy path <%s>: iterates only the source's persistent set of that tag and attaches each clone to this->storage_tracker<%s>()" % (tag, tag))
     (ck.ok if tags == set(ENTITY_TAGS) else lambda r_, w, t: ck.violate(r_, w, t, "C13.clone:tags"))("C13.clone", cp.where, "clone_persistent_properties_from covers all seven entity kinds (%s)" % sorted(tags))
     # operator=
@@ -137,6 +143,10 @@ def run_c13(ck, fb, fbd):
                 tag = x["ta"][0].split("Entity::")[-1]
                 arg = g.resolve(x["a"][0])
                 src = any(isinstance(y, dict) and y.get("k") == "var" and y.get("n") == other["n"] for y in walk(arg))
+                # handles held on the target must shrink as well as grow: the resize is unconditional
+                cond = sorted({(s_, p_) for s_, p_, e_ in Canon(g).facts(b)})
+                if cond:
+                    ck.violate("C13.assign", g.loc(x), "operator= resizes the %s properties to the source's count unconditionally (found under %s)" % (tag, cond[:2]), "C13.assign:resize:%s:conditional" % tag)
                 sized[tag] = sized.get(tag, True) and src
             elif nm in ("resize_vprops", "resize_eprops", "resize_fprops", "resize_cprops"):
                 arg = g.resolve(x["a"][0])
@@ -466,6 +476,9 @@ def run_c14(ck, fb, fbd):
     clear_props_rule(ck, fb)
     flag_writer_rule(ck, fb)
     tag_rule(ck, fb)
+    # m = m must not run the anonymise step: it would un-persist and hide every property of the mesh (shared with C13)
+    ck.rule("C13.assign", "every user-provided copy assignment of the mesh hierarchy begins with the self-assignment test: ResourceManager::operator= makes all existing properties private before cloning, which on self-assignment drops every persistent property although nothing was destroyed")
+    selfguard_rule(ck, fb)
     # a cloned storage has to carry the persistent/shared flags of its source: the copy path inserts it into the target's
     # persistent set without touching the flag (shared with C13)
     clone_rule(ck, fb, "C14.flagsync")
